@@ -21,11 +21,11 @@ def gen(rng, thorough):
     owned = {}            # uid -> owner (accepted, as the generator intends; confirmed from replies)
     uidn = 0
 
-    def add_some(k):
+    def add_some(k, pool=None):
         nonlocal uidn
         out = []
         for _ in range(k):
-            peer = rng.choice(USERS[:3])
+            peer = rng.choice(pool or USERS[:3])
             items = []
             for _ in range(rng.choice([1, 2, 3])):
                 if owned and rng.random() < 0.25:
@@ -48,7 +48,14 @@ def gen(rng, thorough):
     ops += add_some(rng.randint(1, 4))
     if rng.random() < 0.7:
         ops += ["C", "L"]
-    ops += add_some(rng.randint(1, 4))
+    if rng.random() < 0.2:
+        # a busy interval: more acknowledged connections than the 16 slots of the dirty list, the late ones from a
+        # user who was not marked before (then only the complete dump can save that user's file)
+        early = rng.sample(USERS[:3], rng.choice([1, 2]))
+        late = [u for u in USERS[:3] if u not in early]
+        ops += add_some(rng.randint(14, 19), early) + add_some(rng.randint(1, 3), late)
+    else:
+        ops += add_some(rng.randint(1, 4))
     r = rng.random()
     victim = rng.choice(USERS[:3])
     if r < 0.55:
@@ -82,8 +89,20 @@ def check(ops, answer):
     owner = {}          # uid -> owner as acknowledged (2.0 replies)
     files = {}          # last complete listing
     crashed = False
+    lastocc = {}          # uid -> its last occurrence
+    now = 0
+    armed = None          # a cut or fault waiting for the next checkpoint: the victim's uid
+    clean = False         # the last checkpoint ran to its end without an injected fault
     for op, g in zip(ops, groups):
         w = op.split()
+        if w[0] in ("T", "TX"):
+            now = int(w[1])
+        if w[0] in ("K", "F"):
+            armed = int(w[1])
+        if w[0] in ("C", "R"):
+            clean = (g != "CRASH") and armed is None
+            faulty = armed if g != "CRASH" else None
+            armed = None
         if g == "CRASH":
             crashed = True
         if g.startswith("DIED") or g == "TIMEOUT":
@@ -96,6 +115,7 @@ def check(ops, answer):
                 if st == "2.0":
                     if tok.startswith("S|"):
                         owner[uid] = peer
+                        lastocc[uid] = max(int(x) for x in tok.split("|")[5].split(","))
                     else:
                         owner.pop(uid, None)
         elif w[0] == "L":
@@ -108,6 +128,15 @@ def check(ops, answer):
                 if uids != new and uids != old:
                     return "queue file of user %d holds %s: neither the previous checkpoint %s nor the accepted tasks %s" % (
                         u, sorted(uids), sorted(old), sorted(new))
+                live = {x for x in new if lastocc.get(x, 0) > now + 1}
+                if clean and not live <= uids:
+                    return "after a completed checkpoint the queue file of user %d holds %s, the accepted tasks still to run are %s" % (
+                        u, sorted(uids), sorted(live))
+            if clean:
+                for u in {o for x, o in owner.items() if lastocc.get(x, 0) > now + 1}:
+                    if u not in cur:
+                        return "after a completed checkpoint user %d has no queue file although tasks %s were accepted" % (
+                            u, sorted(x for x, o in owner.items() if o == u))
             files = cur
             if crashed:
                 # acknowledged but not yet checkpointed changes are gone with the process: the files are the truth now
@@ -148,8 +177,23 @@ def run(ctx):
         why = check(ops, impl[i] if i < len(impl) else "")
         if why:
             fails.append((i, why))
-    corr = common.diff_lines(lines, impl, model)
+    # a cut or fault inside the complete dump (16 or more marks): chkpnta() renames every file at the very end, in the order
+    # of the task hash table, which the model does not represent; those histories are judged by the oracle only
+    def full_dump_cut(ops):
+        marks = 0
+        for o in ops:
+            if o.startswith("A "):
+                marks += 1
+            elif o in ("C", "R"):
+                marks = 0
+            elif o[0] in "KF" and marks >= 16:
+                return True
+        return False
+    oracle_only = {i for i, ops in enumerate(cases) if full_dump_cut(ops)}
+    corr = [c for c in common.diff_lines(lines, impl, model) if c[0] not in oracle_only]
     ctx.cov.update({
+        "full_dump_histories": sum(1 for ops in cases if sum(1 for o in ops if o.startswith("A ")) >= 16),
+        "full_dump_cut_histories_oracle_only": len(oracle_only),
         "evaluations": len(lines),
         "distinct_nontrivial": len({l for l in lines if " K " in l or " F " in l or " R " in l}),
         "traces_validated_against_impl": len(lines) - len(corr),
